@@ -250,6 +250,15 @@ def worlds(tier):
     ws.append(w.W("indep2-cpu+gpu-pool-EDF-seed42", w.indep(2, release=0, deadline=10 ** 6), CPUGPU1, "EDF", seed=42, split=6, weight=10,
                   tasks={t: {"strategies": [{"rt": "sym", "res": {"CPU": 1, "GPU": 1}}]} for t in ("T0", "T1")}))
     ws.append(w.W("poisson-arrivals-via-jobgraph-EDF-seed42", [], w.C1, "EDF", seed=42, split=6, weight=10, jobgraph={"variance": [0, 0], "n": 1, "poisson": 2, "concrete_runtimes": True}))
+    # arrivals drawn by a release policy that was given the seed (as the Alibaba loader does): reproducible for every seed, 0 included
+    for seed in ((0,) if tier == "quick" else (0, 1, 42)):
+        ws.append(w.W(f"poisson-arrivals-policy-given-the-seed-EDF-seed{seed}", [], w.C1, "EDF", seed=seed, split=6, weight=10,
+                      jobgraph={"variance": [0, 0], "n": 1, "poisson": 2, "concrete_runtimes": True, "pass_seed": True, "concrete_start": True}))
+    # the real entry point (main.main) on one of the repository's profiles, under each log-file mode
+    for mode in ("write", "append"):
+        ws.append({"name": f"entry-point-main-EDF-log_file_mode-{mode}-seed7", "entry": {"argv": ["--execution_mode=yaml", "--workload_profile_path={REPO}/profiles/workload/edf_adversarial.yaml",
+                   "--worker_profile_path={REPO}/profiles/workers/edf_adversarial.yaml", "--scheduler=EDF", "--scheduler_runtime=0", f"--log_file_mode={mode}", "--log_level=error"]},
+                   "seed": 7, "graphs": [], "cluster": w.C1, "policy": "EDF", "split": 4, "weight": 5})
     return ws
 
 
@@ -265,7 +274,11 @@ def build_from_jobgraph(env, spec):
             ExecutionStrategy(resources=Resources({Resource(name="CPU", _id="any"): 1}, _logger=stubs.NULL), batch_size=1, runtime=EventTime(rt, US))]))
         jobs.append(Job(name=f"J{i}", profile=prof))
     if jg_spec.get("poisson"):
-        pol = JobGraph.ReleasePolicy.poisson(rate=0.01, num_invocations=jg_spec["poisson"], start=EventTime(env.int("start", 0, 2 ** 20), US))
+        start = EventTime(5 if jg_spec.get("concrete_start") else env.int("start", 0, 2 ** 20), US)
+        if jg_spec.get("pass_seed"):
+            pol = JobGraph.ReleasePolicy.poisson(rate=0.01, num_invocations=jg_spec["poisson"], start=start, rng_seed=spec["seed"])
+        else:
+            pol = JobGraph.ReleasePolicy.poisson(rate=0.01, num_invocations=jg_spec["poisson"], start=start)
     else:
         pol = JobGraph.ReleasePolicy.fixed(period=EventTime(env.int("period", 1, 2 ** 20), US), num_invocations=2, start=EventTime(env.int("start", 0, 2 ** 20), US))
     jg = JobGraph(name="JG", jobs={jobs[i]: ([jobs[i + 1]] if i + 1 < n else []) for i in range(n)}, release_policy=pol, deadline_variance=tuple(jg_spec["variance"]))
@@ -286,6 +299,8 @@ def one_run(tw, spec, k):
     _RMOD.seed(spec["seed"])
     stubs.CSV.rows.clear()
     harness.CUR_ENV = tw
+    if spec.get("entry"):
+        return entry_point_run(tw, spec)
     if spec.get("jobgraph"):
         s2 = dict(spec, graphs=[])
         W = simworld.build(tw, s2)
@@ -301,6 +316,31 @@ def one_run(tw, spec, k):
     finally:
         simworld.MON = None
     return list(stubs.CSV.rows)
+
+
+def entry_point_run(tw, spec):
+    """The real main.main() on one of the repository's own profiles: flag parsing, seeding, loaders, Simulator.
+    The process-wide generator is in its start-up (environment-dependent) state when main() is entered."""
+    import main as M
+
+    stubs.install()  # null / capturing loggers for the modules main imported
+    M.setup_logging = stubs._setup_logging
+    M.setup_csv_logging = stubs._setup_csv_logging
+    M.random = _RMOD
+    _RandomModule.seeded = False  # one_run() seeded it the way the other worlds' harness does: undo, main() has to do it
+    import random as _r
+
+    _r.seed(_ENTRY_SALT[0])  # "fresh process": the real generator starts from an arbitrary state that differs between the two runs
+    _ENTRY_SALT[0] += 1
+    if M.FLAGS.is_parsed():
+        M.FLAGS.unparse_flags()
+    M.FLAGS(["main.py"] + [a.replace("{REPO}", harness.REPO) for a in spec["entry"]["argv"]] + [f"--random_seed={spec['seed']}"])
+    stubs.CSV.rows.clear()
+    M.main(None)
+    return [r for r in stubs.CSV.rows if not r.startswith("input_flag,")]
+
+
+_ENTRY_SALT = [1000]
 
 
 def run(env, spec):
@@ -342,7 +382,7 @@ def signature(world, v, failures):
     info = v.get("info") or ""
     if "WORKER_POOL_UTILIZATION" in info:
         return "utilization-rows-follow-string-hash-order"
-    if world.get("jobgraph", {}).get("poisson"):
+    if world.get("jobgraph", {}).get("poisson") and not world["jobgraph"].get("pass_seed"):
         return "poisson-gamma-arrivals-use-an-unseeded-generator"
     return v["label"]
 
